@@ -404,8 +404,8 @@ check("C20",
            "destroys two Lexicons in a row), EVERY schedule with <= 2 preemptions (thorough: <= 3 for the isolated shape); to 3 threads: 35 "
            "assignments up to permutation with <= 1 preemption (quick) / all 125 with <= 2 (thorough). Oracle per schedule: each "
            "thread's trace byte-identical to the same program run alone (every program first records the unit's global namespace, its name, region and scope, and whether the name is its own Lexicon's unnamed identifier); nodes handed out by two live Lexicons intersect only in the "
-           "process-wide constants; per-thread allocation balance (a block allocated by one thread and released by another is a "
-           "violation); replayed twice before report. also two (three) Lexicons alive on ONE thread running the same program. "
+           "process-wide constants; per-thread allocation balance equal to that of a fresh thread running the same program alone (a block allocated by one thread and released by another is a "
+           "violation; something a thread keeps for itself until it ends is not); replayed twice before report. also two (three) Lexicons alive on ONE thread running the same program. "
            "(b) the same bodies free-running on 2,3,4,8,16 threads under ThreadSanitizer, each process starting COLD with 8 threads at "
            "once (lazily built process-wide state is raced for there): no report. distinct_nontrivial = thread/program configurations explored.",
       text="All schedules up to a preemption bound of the real library under a controlled scheduler, plus a free-running "
